@@ -308,7 +308,15 @@ def rule_R6(ctx):
     ctx.floor("R6", "label conversions", n, 3)
 
 
+def rule_args(ctx):
+    """R1 (argument routing): across the workspace no two same-typed, named arguments are passed in each other's positions"""
+    from . import _argswap as AS
+    n = AS.swapped_arguments(ctx, ctx.program, "R1", ("huginn_net_tcp", "huginn_net_http", "huginn_net_tls", "huginn_net", "huginn_net_db"))
+    ctx.floor("R1", "calls to workspace functions with named parameters", n, 300)
+
+
 def run(ctx):
+    rule_args(ctx)
     rule_R1(ctx)
     rule_R2_R3(ctx)
     rule_R4(ctx)
